@@ -9,7 +9,7 @@ func init() {
 			shapes = append(shapes, []int{3}, []int{1, 2, 1}, []int{2, 1, 1, 2})
 		}
 		add := func(op string, shape []int, dt string, slope []int) {
-			special := (op == "Sigmoid" || op == "Tanh") && len(shape) <= 1 && (dt == "float32" || th)
+			special := (op == "Sigmoid" || op == "Tanh") && len(shape) <= 1 && (dt == "float32" || th) && (len(shape) == 0 || shape[0] < 10)
 			p.Jobs = append(p.Jobs, Job{Harness: "opset13.H_C10", Case: map[string]interface{}{"op": op, "shape": shape, "dtype": dt, "slope": slope, "special": special}})
 		}
 		floatOps := []string{"Abs", "Relu", "Sigmoid", "Tanh", "Sin", "Cos", "Tan", "Asin", "Acos", "Atan", "Sinh", "Cosh", "Asinh", "Acosh", "Atanh"}
@@ -19,6 +19,14 @@ func init() {
 				add(op, s, "float64", nil)
 			}
 		}
+		// sizes beyond the usual blocking / parallelisation thresholds and not a multiple of 2, 4, 64 (67; 4099 = 4096 + 3)
+		add("Relu", []int{67}, "float32", nil)
+		add("Relu", []int{4099}, "float32", nil)
+		add("Relu", []int{1, 3, 37, 37}, "float64", nil)
+		add("Abs", []int{67}, "float32", nil)
+		add("Abs", []int{4099}, "int32", nil)
+		add("PRelu", []int{4099}, "float32", []int{1})
+		add("Not", []int{4099}, "bool", nil)
 		for _, dt := range []string{"int8", "int16", "int32", "int64", "uint8", "uint16", "uint32", "uint64"} {
 			add("Abs", []int{2}, dt, nil)
 			add("Abs", []int{}, dt, nil)
@@ -33,7 +41,7 @@ func init() {
 			add("PRelu", c[0], []string{"float64", "int32", "int64", "uint32", "uint64"}[i%5], c[1])
 		}
 		p.Bounds = []string{
-			"17 operators; shapes (), (1), (2,2) (thorough also (3), (1,2,1), (2,1,1,2)); float32 and float64 for all, every accepted integer type for Abs and PRelu, bool for Not",
+			"17 operators; shapes (), (1), (2,2), and (67), (4099), (1,3,37,37) for Relu/PRelu/Not/Abs (Abs: float32 67, int32 4099) (thorough also (3), (1,2,1), (2,1,1,2)); float32 and float64 for all, every accepted integer type for Abs and PRelu, bool for Not",
 			"every element symbolic under IEEE-754 (FloatingPoint theory): +-0, subnormals, +-Inf, NaN, out-of-domain arguments are all values of the variable",
 			"math wrappers: the result must be the term E(math.F(float64(x))) for the function F the operator is named after (uninterpreted function per routine; constants evaluated with Go's own routine)",
 			"Tanh/Sigmoid: built from math32.Tanh/Exp (float32) resp. math.Tanh/Exp (float64) exactly as gorgonia's kernels call them, plus special-value assertions (NaN, +-Inf, range, halves) under stated facts about exp/tanh on the scalar and (1) shapes (float32; float64 in thorough)",
